@@ -9,7 +9,10 @@ SUFFIX_POOL = ['Shell', 'AdvShell', '_adv', 'X', 'Shell2']
 PREFIX_POOL = [None, None, ['My'], ['Lib', 'Util'], ['a', 'b', 'c'], ['Company_1']]
 COPYRIGHTS = ['Copyright (c) me', '(c) A\nline two\n\n  indented', '', 'x */ #include <y> \\',
               'tab\tsep\x0cform feed', '// already a comment', 'cafe\u0301 \u2126 A\u030a (not NFC)',
-              '\u00e9 \u00fc \u00a9 precomposed']
+              '\u00e9 \u00fc \u00a9 precomposed',
+              # classic-Mac / stray carriage returns end a // comment for the C++ compilers
+              '(c) classic\rMac line ends\rstatic_assert(false, "leaked from the copyright");',
+              'crlf\r\nthen a lone\rcarriage return and a \x0b vertical tab \x85 nel \u2028 ls']
 
 
 def spell_uniform(draw, sem, names, explicit=False):
@@ -100,7 +103,8 @@ def valid_spec(draw, sm, want_mc=None, want_mixed=None, explicit=False, req_form
             'prov': {'sts': psts, 'mts': pmts}, 'req': {'sts': rsts, 'mts': rmts}, 'mc': mc,
             'origin': draw(st.sampled_from(['CREATE', 'IMPORT'])),
             'copyright': draw(st.sampled_from(COPYRIGHTS)),
-            'creator': draw(st.sampled_from([None, 'made by me', 'line1\nline2'])),
+            'creator': draw(st.sampled_from([None, 'made by me', 'line1\nline2',
+                                             'by\rme\r#error leaked from creator_info'])),
             'prefix': prefix}
     sem = {p: psem for p in prov}
     sem.update(assign)
